@@ -59,6 +59,31 @@ Example C01_spec_cards_example :
 Proof. destruct ex_reads as (_ & _ & H). exact H. Qed.
 Print Assumptions C01_spec_cards_example.
 
+(* 1b. Comment texts.  Every line the reader stores lands in exactly one input (H_lines_conserved); read by rules
+       S5 / S6, the comment texts of the stored lines of the inputs of a block are, in file order, exactly the comment
+       texts of the cards of that block (C comment lines and '$' comments, stripped).  Which card of the block a
+       comment line between two cards is listed with differs by convention (MontePy keeps the line with the input
+       before it, Spec/Cards.v lists it with the card after it; lines before the first card of a block go with that
+       card on both sides, lines after the last one with the last), so the statement is per block, not per card.
+         mp_comments ins     = [(block type of the input, comment text) ...] over the stored lines of the inputs
+         spec_comments p     = [(block number, comment text) ...] over the cards of p *)
+Theorem C01_comments_agree : forall w bytes, SpecWire.wf_file w bytes = true ->
+  mp_comments (read_inputs w (split_lines bytes)) = spec_comments (Cards.read w bytes).
+Proof. exact comments_agree. Qed.
+Print Assumptions C01_comments_agree.
+
+Example C01_comments_agree_nonvacuous :
+  SpecWire.wf_file 80 ex_file_lf = true /\
+  mp_comments (read_inputs 80 (split_lines ex_file_lf))
+  = [(0, "cells"); (0, "inner"); (0, "in between"); (1, "sphere &"); (1, "")] /\
+  map (fun i => (i_bt i, i_lines i)) (read_inputs 80 (split_lines ex_file_lf))
+  = [(0, ["c cells"; "1 0     -1 $ inner"; "     imp:n=1 &"; "  C in between"; "vol=2"]);
+     (0, ["  2 0 1"; "      c 5"]);
+     (1, ["1 so 1 $ sphere &"; "c"]);
+     (2, ["mode n"])].
+Proof. destruct ex_wf as [H _]. destruct ex_comments as [A B]. repeat split; assumption. Qed.
+Print Assumptions C01_comments_agree_nonvacuous.
+
 (* 2. Without the predicate the statement is false, already on files of printable lines within the limit that end
       in LF: "1 0 -1 & $ x" / "imp:n=1" is one card by S6 + S7 and two inputs for MontePy. *)
 Theorem C01_split_agrees_refuted : exists w bytes, plain_file w bytes = true /\
